@@ -206,13 +206,23 @@ pub struct Panicked {
 /// Run code under test; a panic becomes `Err(Panicked)`. A `Starvation`
 /// payload is re-raised: it is a harness condition, not a finding.
 pub fn catch<T>(f: impl FnOnce() -> T) -> Result<T, Panicked> {
+    LAST_PANIC.with(|p| p.borrow_mut().clear());
     match catch_unwind(AssertUnwindSafe(f)) {
         Ok(v) => Ok(v),
         Err(payload) => {
             if payload.downcast_ref::<Starvation>().is_some() {
                 std::panic::resume_unwind(payload);
             }
-            let message = LAST_PANIC.with(|p| p.borrow().clone());
+            let mut message = LAST_PANIC.with(|p| p.borrow().clone());
+            if message.is_empty() {
+                // the panic started on another thread (a pool worker) and was carried over: the hook's note is there,
+                // the payload is here
+                message = payload
+                    .downcast_ref::<String>()
+                    .cloned()
+                    .or_else(|| payload.downcast_ref::<&str>().map(|s| (*s).to_string()))
+                    .unwrap_or_default();
+            }
             let site = message
                 .rsplit_once(" @ ")
                 .map(|(_, l)| l.rsplit_once(':').map_or(l, |(f, _)| f).to_string())
